@@ -307,6 +307,18 @@ class SpecMixin:
                     raise Unsupported('spec: global %s is not used by the function' % key[1])
                 return self.global_var(env.st, o)
             return env.st.ghost[key]
+        if name in ('pair', 'gosyntax', 'joinid', 'sha256hex', 'strs', 'strof'):
+            from . import golib
+            self.use_ident = True
+            vals = [self.sev(env, a) for a in args]
+            if name == 'pair': return golib.pair(vals[0], vals[1])
+            if name == 'gosyntax': return golib.gosyntax(vals[0])
+            if name == 'joinid': return golib.joinid(vals[0])
+            if name == 'sha256hex': return golib.sha256hex(vals[0])
+            if name == 'strs':
+                x = vals[0]
+                return golib.strs_ident(x.arrs[0], x.arrs[1], x.arrs[2], x.off, x.len)
+            if name == 'strof': return StrV(golib.str_arr_of(vals[0]), z3.IntVal(0), golib.str_len_of(vals[0]))
         if name == 'unboxint':
             from .gocalls import unbox_int
             return unbox_int(self.refof(self.sev(env, args[0])))
